@@ -166,6 +166,32 @@ class Ref:
                     self._retire(uid)
         return sp
 
+    def tick_exit(self, now, k, order_hint=()):
+        """a loop iteration in which child k is reaped as well: the occurrence that comes due is still run"""
+        # the specified behaviour does not depend on the order inside the iteration: exit first is equivalent
+        # except that the finished task must not be retired before its last run
+        live = k < len(self.children) and self.children[k][1]
+        if live:
+            c = self.children[k]
+            c[1] = False
+            c[0]["running"] -= 1
+        sp = self.tick(now, order_hint)
+        if live:
+            t = c[0]
+            for uid, cur in list(self.tasks.items()):
+                if cur is t and not t["occ"] and t["running"] == 0 and t["ever"]:
+                    self._retire(uid)
+        return ("x" if live else "nochild"), sp
+
+    def http_sched(self, peer, url_uid, tuids):
+        """GET [/u/N]/sched: a user sees its own tasks only; root sees those of the user named in the URL"""
+        mine = lambda u: sorted(uid for uid, t in self.tasks.items() if t["owner"] == u)
+        if peer != 0:
+            allowed = set(mine(peer))
+        else:
+            allowed = set(mine(url_uid)) if url_uid is not None else set()
+        return allowed
+
     def _retire(self, uid):
         t = self.tasks.pop(uid)
         self._mark(t["owner"])
@@ -233,6 +259,19 @@ def gen_history(rng, knobs):
             now += rng.choice([1, 1, 2, 3, 5, 11, 30])
             ops.append("T %d" % now); acts.append(("T", now))
             spawned += 3
+        elif r < 0.66 and knobs.get("tx", True):
+            now += rng.choice([1, 2, 5, 10])
+            k = rng.randint(0, max(0, spawned))
+            ops.append("TX %d %d" % (now, k)); acts.append(("TX", now, k))
+            spawned += 2
+        elif r < 0.70 and knobs.get("http", False):
+            peer = rng.choice(USERS[:knobs.get("nusers", 3)] + [0])
+            url_uid = rng.choice([None, None, peer, rng.choice(USERS), 1023, 2047, 4294967295])
+            tu = [rng.choice(uids)] if rng.random() < 0.3 else []
+            path = ("/u/%d" % url_uid if url_uid is not None else "") + "/sched" + ("?tuid=" + tu[0] if tu else "")
+            reqline = "GET %s HTTP/1.1\r\n\r\n" % path
+            ops.append("H %d %s %s %s" % (peer, reqline.encode().hex(), "-" if url_uid is None else url_uid, " ".join(tu) if tu else "-"))
+            acts.append(("H", peer, url_uid, tu, path))
         elif r < 0.82:
             k = rng.randint(0, max(0, spawned))
             ops.append("X %d 0" % k); acts.append(("X", k))
@@ -259,6 +298,12 @@ def run_ref(acts, me=0, groups=None):
             outs.append(("A", ref.request(a[1], a[2])))
         elif a[0] == "X":
             outs.append(("X", ref.child_exit(a[1])))
+        elif a[0] == "TX":
+            hint = re.findall(r"sp\(([^,)]*),", groups[i]) if groups and i < len(groups) else ()
+            x, sp = ref.tick_exit(a[1], a[2], hint)
+            outs.append(("TX", (x, sorted(sp))))
+        elif a[0] == "H":
+            outs.append(("H", ref.http_sched(a[1], a[2], a[3])))
         elif a[0] == "Q":
             outs.append(("Q", ref.table()))
         elif a[0] == "C":
@@ -297,6 +342,19 @@ def compare(acts, answer, me=0):
                     diffs.append(("C12", "op %d (clock -> %d): run / not-run decisions %s, the limits call for %s" % (i, a[1], got, w)))
                 else:
                     diffs.append(("C14", "op %d: limit handed to the executor %s, expected %s" % (i, got, w)))
+        elif kind == "TX":
+            got = sorted(re.findall(r"sp\([^)]*\)", g))
+            if got != w[1]:
+                diffs.append(("C04", "op %d (clock -> %d, child %d reaped in the same iteration): executions started %s, "
+                              "occurrences come due call for %s" % (i, a[1], a[2], got, w[1])))
+        elif kind == "H":
+            status, _, body = g.partition(":")
+            listed = set(x for x in body.split("+") if x)
+            if not listed <= w:
+                diffs.append(("C11", "op %d: user %d asking %s is shown %s, which are not its own tasks (own: %s)"
+                              % (i, a[1], a[4], sorted(listed - w), sorted(w))))
+            elif status == "200" and a[2] in (None, a[1]) and not a[3] and listed != w:
+                diffs.append(("C11", "op %d: user %d listing its tasks sees %s, its queue holds %s" % (i, a[1], sorted(listed), sorted(w))))
         elif kind == "A":
             got = re.findall(r"rp\([^)]*\)", g)
             if got != w:
